@@ -1573,11 +1573,11 @@ impl<'a> BackendWriteTransaction<'a> {
 
             // Write the changes out to the backend
             if let Some(rem) = n2u_rem {
-                self.idlayer.write_name2uuid_rem(rem)?
+                self.idlayer.write_name2uuid_rem(uuid, rem)?
             }
 
             if let Some(rem) = eid2u_rem {
-                self.idlayer.write_externalid2uuid_rem(rem)?
+                self.idlayer.write_externalid2uuid_rem(uuid, rem)?
             }
 
             match u2s_act {
@@ -1619,14 +1619,14 @@ impl<'a> BackendWriteTransaction<'a> {
             self.idlayer.write_name2uuid_add(e_uuid, add)?
         }
         if let Some(rem) = n2u_rem {
-            self.idlayer.write_name2uuid_rem(rem)?
+            self.idlayer.write_name2uuid_rem(e_uuid, rem)?
         }
 
         if let Some(add) = eid2u_add {
             self.idlayer.write_externalid2uuid_add(e_uuid, add)?
         }
         if let Some(rem) = eid2u_rem {
-            self.idlayer.write_externalid2uuid_rem(rem)?
+            self.idlayer.write_externalid2uuid_rem(e_uuid, rem)?
         }
 
         match u2s_act {
